@@ -1427,15 +1427,14 @@ class Engine:
                     self.add_obl('bounds', st, z3.Or(src.off < 0, src.off + cnt > os_.cap), 'memcpy load outside capacity of %s' % src.obj, where)
                 st.mem.o[dst.obj] = od.with_arr(arr)
                 return
-            # symbolic length: bounded element loop with unwinding obligation
-            K = self.unwind
+            # symbolic length: array-copy as a lambda term (no unrolling, any length)
             ne = z3.UDiv(n, z3.BitVecVal(es, 64)) if es > 1 else n
-            arr = od.arr
-            for k in range(K):
-                arr = z3.If(z3.ULT(z3.BitVecVal(k, 64), ne), z3.Store(arr, dst.off + k, z3.Select(os_.arr, src.off + k)), arr)
-            self.obl.append(Obl('unwind', z3.And(st.pc, z3.UGT(ne, K)), 'memcpy longer than unwinding bound', where))
-            self.add_obl('bounds', st, z3.And(ne != 0, z3.Or(dst.off < 0, dst.off + ne > od.cap, z3.UGT(ne, z3.BitVecVal(1 << 60, 64)))), 'memcpy store outside capacity of %s' % dst.obj, where)
-            self.add_obl('bounds', st, z3.And(ne != 0, z3.Or(src.off < 0, src.off + ne > os_.cap, z3.UGT(ne, z3.BitVecVal(1 << 60, 64)))), 'memcpy load outside capacity of %s' % src.obj, where)
+            i = z3.FreshConst(z3.BitVecSort(64), 'cpy')
+            doff, soff = bv64(dst.off), bv64(src.off)
+            arr = z3.Lambda([i], z3.If(z3.And(z3.UGE(i - doff, z3.BitVecVal(0, 64)), z3.ULT(i - doff, ne)),
+                                       z3.Select(os_.arr, i - doff + soff), z3.Select(od.arr, i)))
+            self.add_obl('bounds', st, z3.And(ne != 0, z3.Or(doff < 0, doff + ne > od.cap, z3.UGT(ne, z3.BitVecVal(1 << 60, 64)))), 'memcpy store outside capacity of %s' % dst.obj, where)
+            self.add_obl('bounds', st, z3.And(ne != 0, z3.Or(soff < 0, soff + ne > os_.cap, z3.UGT(ne, z3.BitVecVal(1 << 60, 64)))), 'memcpy load outside capacity of %s' % src.obj, where)
             st.mem.o[dst.obj] = od.with_arr(arr)
             return
         raise Unsupported('memcpy between %s and %s' % (type(od).__name__, type(os_).__name__))
